@@ -109,8 +109,20 @@ TryParseNum(b) ==
          IF Len(b) >= 11 THEN [k |-> "err", d |-> <<>>]
          ELSE LET c == Canon(b) IN
               IF Len(c) < 10 \/ LexLeq(c, U32MAX) THEN [k |-> "ok", d |-> c] ELSE [k |-> "err", d |-> <<>>]
-    ELSE IF Len(b) > 6 THEN [k |-> "unmodelled", d |-> <<>>]
-    ELSE [k |-> "ok", d |-> ToDigits(FoldLeft(LAMBDA a, i : a + (b[i] - 48) * Pow10(Len(b) - i), 0, [i \in 1..Len(b) |-> i]))]
+    ELSE IF Len(b) >= 11 THEN [k |-> "err", d |-> <<>>]
+    ELSE \* "digits" above 9: sum of (byte - 48) * 10^position, as two base-10^5 limbs; the checked
+         \* operations fail exactly when the total exceeds u32::MAX = 42949|67295
+         LET n == Len(b)
+             term(i) == LET dg == b[i] - 48  pw == n - i IN
+                        IF pw >= 5 THEN [hi |-> dg * Pow10(pw - 5), lo |-> 0]
+                        ELSE [hi |-> (dg * Pow10(pw)) \div 100000, lo |-> (dg * Pow10(pw)) % 100000]
+             los == FoldLeft(LAMBDA a, i : a + term(i).lo, 0, [i \in 1..n |-> i])
+             his == FoldLeft(LAMBDA a, i : a + term(i).hi, 0, [i \in 1..n |-> i]) + (los \div 100000)
+             lo == los % 100000
+             lod == ToDigits(lo)
+         IN IF his > 42949 \/ (his = 42949 /\ lo > 67295) THEN [k |-> "err", d |-> <<>>]
+            ELSE IF his = 0 THEN [k |-> "ok", d |-> lod]
+            ELSE [k |-> "ok", d |-> ToDigits(his) \o [i \in 1..(5 - Len(lod)) |-> 48] \o lod]
 \* try_pwd: the first six colons whose 0-based index is not 0 (0 doubles as "slot unset")
 TryPwd(L) ==
     LET ps == SelectSeq(Pos(L, COLON), LAMBDA p : p # 1) IN
